@@ -486,6 +486,8 @@ func c13ParallelLoads(rng *rand.Rand, thorough bool) {
 }
 
 // c13Ocsp: concurrent OCSP lookups on one checker while cache entries expire.
+var wrongOcsp atomic.Int64
+
 func c13Ocsp(rng *rand.Rand, thorough bool) {
 	cfg := ocspCfg(false, 1, "absent", []string{"good"}, []string{"revoked"})
 	w := newOcspWorld(cfg, rng.Int63())
@@ -493,18 +495,28 @@ func c13Ocsp(rng *rand.Rand, thorough bool) {
 	world.SetHandler(nil)
 	ch := &ocspchk.OCSPRevocationChecker{}
 	ch.Provision(&config.OCSPConfig{DefaultCacheDurationParsed: 15 * time.Millisecond}, zap.NewNop())
-	n := 30
+	n := 120
 	if thorough {
-		n = 300
+		n = 600
 	}
 	var wg sync.WaitGroup
-	for g := 0; g < 6; g++ {
+	for g := 0; g < 8; g++ {
 		cert := []string{"cA", "cB"}[g%2]
 		wg.Add(1)
 		go func() {
 			defer wg.Done()
 			for k := 0; k < n; k++ {
-				watchdog("ocsp lookup", 30*time.Second, func() { ch.IsRevoked(w.leaves[cert].Cert, w.chains[cert]) })
+				watchdog("ocsp lookup", 30*time.Second, func() {
+					st, err := ch.IsRevoked(w.leaves[cert].Cert, w.chains[cert])
+					// the responders never change: cA's says good, cB's says revoked (authentic answers); whatever the other lookups
+					// do meanwhile, each verdict is the one the lookup yields alone
+					revoked := err == nil && st != nil && st.Revoked
+					if err != nil || revoked != (cert == "cB") {
+						if wrongOcsp.Add(1) == 1 {
+							fmt.Printf("WRONG ocsp-concurrent: lookup of %s (its responder: %s) under concurrent lookups of the other certificate gave revoked=%v err=%v\n", cert, map[string]string{"cA": "good", "cB": "revoked"}[cert], revoked, err)
+						}
+					}
+				})
 				if k%7 == 0 {
 					time.Sleep(5 * time.Millisecond)
 				}
